@@ -122,7 +122,19 @@ type ment struct {
 	panicPass bool
 }
 
-var errs = []error{errors.New("e0"), errors.New("e1"), errors.New("e2")}
+// errors of comparable and of uncomparable dynamic types (a slice-typed error, a struct error with a slice field): legal
+// error values that the library must carry around without comparing them with ==
+type sliceErr []string
+
+func (e sliceErr) Error() string { return "sliceErr" + fmt.Sprint([]string(e)) }
+
+type fieldErr struct{ tags []string }
+
+func (e fieldErr) Error() string { return "fieldErr" + fmt.Sprint(e.tags) }
+
+var errs = []error{errors.New("e0"), errors.New("e1"), errors.New("e2"), sliceErr{"s3"}, sliceErr{"s4"}, fieldErr{[]string{"s5"}}}
+
+func sameErr(a, b error) bool { return reflect.DeepEqual(a, b) && fmt.Sprint(a) == fmt.Sprint(b) }
 
 type sums struct{ lo, hi model.Events } // lo: panic-passed entries not counted; hi: counted
 
@@ -351,7 +363,7 @@ func TestAccounting(t *testing.T) {
 				}
 			case op == 2 && len(liveIdx) > 0: // TraceError on a live entry
 				m := all[liveIdx[rapid.IntRange(0, len(liveIdx)-1).Draw(t, "i")]]
-				er := errs[rapid.IntRange(0, 2).Draw(t, "err")]
+				er := errs[rapid.IntRange(0, len(errs)-1).Draw(t, "err")]
 				sentinel.TraceError(m.e, er)
 				m.err = er
 				c.Op("TraceError(#%d,%v)", m.id, er)
@@ -367,7 +379,7 @@ func TestAccounting(t *testing.T) {
 						}
 					}()
 					if op == 4 {
-						er := errs[rapid.IntRange(0, 2).Draw(t, "err")]
+						er := errs[rapid.IntRange(0, len(errs)-1).Draw(t, "err")]
 						m.err = er
 						m.e.Exit(base.WithError(er))
 						c.Op("Exit(#%d, WithError(%v))", m.id, er)
@@ -394,7 +406,7 @@ func TestAccounting(t *testing.T) {
 					if len(cbs) != 1 || cbs[0].kind != "complete" || cbs[0].entry != m.e || cbs[0].res != m.res || cbs[0].batch != m.batch {
 						t.Fatalf("Exit(#%d on %s): callbacks %s, want exactly one OnCompleted for this entry", m.id, m.res, fmtCbs(cbs))
 					}
-					if cbs[0].err != m.err {
+					if !sameErr(cbs[0].err, m.err) {
 						t.Fatalf("Exit(#%d): completion carried error %v, the entry's own error is %v", m.id, cbs[0].err, m.err)
 					}
 					if cbs[0].rt != now-m.start {
@@ -486,7 +498,7 @@ func TestAccounting(t *testing.T) {
 				if m.exited {
 					continue
 				}
-				if !m.panicPass && m.e.Context().Err() != m.err {
+				if !m.panicPass && !sameErr(m.e.Context().Err(), m.err) {
 					t.Fatalf("live entry #%d (%s): Context().Err()=%v, its own error is %v (cross-talk through a recycled context)", m.id, m.res, m.e.Context().Err(), m.err)
 				}
 				got := m.e.Context().Input.Args
